@@ -31,7 +31,7 @@ def run(tier):
             raise MachineryError(f"{cfg}: the composed specification is not deterministic ({r.distinct} states, depth {r.depth})")
     lines = driver_det.gen_lines(N[tier], common.seed() + 7)
     mon = _validate(lines, rep)
-    rep.traces, rep.evaluations = mon.traces * 4, mon.counters.get("events_compared", 0)
+    rep.traces, rep.evaluations = mon.traces * 5, mon.counters.get("events_compared", 0)
     rep.extra["situations"] = mon.counters
     rep.nontrivial = sum(1 for ln in lines if len(ln[0]["runs"][0]) >= 5)
     rep.rule = ("random parameter sets x {twice in one process after another simulation, fresh interpreters under PYTHONHASHSEED 0 and a second value}, all shipped policies; "
@@ -45,7 +45,8 @@ def run(tier):
 def replay(path):
     payload = json.loads(open(path).read())
     rep = Report("C07", "quick")
-    mon = _validate([[driver_det.case((payload.get("replay") or {}).get("seed"), 0)]], rep)
+    sd = (payload.get("replay") or {}).get("seed")
+    mon = _validate([[driver_det.case(sd, 0)], [driver_det.scenario_case(sd, 1)]], rep)
     for v in mon.viols[:10]:
         print("  ", json.dumps(v)[:300])
     return 1 if rep.violations else 0
